@@ -3,10 +3,10 @@
 package main
 
 import (
-	"math"
 	"crypto/sha256"
 	"encoding/hex"
 	"fmt"
+	"math"
 	"math/rand/v2"
 )
 
@@ -27,6 +27,10 @@ type step struct {
 	DeleteRev string `json:"deleteRev,omitempty"`
 	// the revision controller finalizes every terminating revision
 	Release bool `json:"release,omitempty"`
+	// Recreate: the user deletes the package object and creates it again under the same name
+	// (a new uid; same spec, then this step's edits); the revisions of the old incarnation stay
+	// behind until the garbage collector gets to them
+	Recreate bool `json:"recreate,omitempty"`
 }
 
 type history struct {
@@ -79,6 +83,12 @@ func baseHistories(thorough bool) []history {
 		{Name: "upgrade-taken-back", Steps: []step{
 			{Source: v1, Limit: lim(2), Activation: "Automatic", Pull: "IfNotPresent"},
 			{Source: v2}, {Source: v1}, {Source: v3}, {Source: v1}, {Source: v2}, {Source: v3},
+		}},
+		// the package is deleted and re-created under its name with another source while the old
+		// incarnation's Active revision is still there (its finalizer holds it)
+		{Name: "package-recreated", Finalizers: true, Steps: []step{
+			{Source: v1, Limit: lim(1), Activation: "Automatic", Pull: "IfNotPresent"},
+			{Recreate: true, Source: v2}, {Source: v3}, {DeleteRev: "oldest"}, {Release: true}, {Source: v2},
 		}},
 		{Name: "limit-zero-then-lowered", Steps: []step{
 			{Source: v1, Limit: lim(0), Activation: "Automatic", Pull: "IfNotPresent"},
